@@ -40,6 +40,7 @@ META = {
         "consumed FEs <= budget",
         "moptipy (Execution, algorithms, log writer/parser) is a trusted "
         "dependency"],
+    "thorough_scale": 2,
     "shards": [6, 16],
     "quick_scale": 1,
     "technique": "property-based testing: Hypothesis-generated run "
